@@ -64,6 +64,7 @@ type vxC16Case struct {
 	RejectIP []int       `json:"reject_ip,omitempty"`
 	RejectDC bool        `json:"reject_dc,omitempty"`
 	DisStatus bool       `json:"no_status_events,omitempty"` // ClusterConfig.Events.DisableNodeStatusEvents: UP/DOWN events are ignored, topology events still count
+	DisTopo   bool       `json:"no_topology_events,omitempty"` // ClusterConfig.Events.DisableTopologyEvents: NEW/REMOVED/MOVED_NODE events cause no refresh, status events still count
 	Steps    []vxC16Step `json:"steps"`
 }
 
@@ -1456,7 +1457,7 @@ func (w *vxC16World) apply(st vxC16Step) (skipped bool, err error) {
 				topo = true
 			}
 		}
-		pending := topo
+		pending := topo && !w.c.DisTopo
 		if w.c.DisStatus {
 			order = nil // status events are ignored altogether
 		}
@@ -1707,7 +1708,7 @@ func (w *vxC16World) burst(evs []vxC16Ev) error {
 			return fmt.Errorf("harness: the control node has not exactly one registered connection")
 		}
 	}
-	pending := topo
+	pending := topo && !w.c.DisTopo
 	if w.c.DisStatus {
 		order = nil // status events are ignored altogether
 	}
@@ -1816,6 +1817,7 @@ func vxC16DrawSlow(t *rapid.T) interface{} {
 		Policy: vxC16Pick(t, "policy", 5, salt, 1001),
 	}}
 	c.Base.DisStatus = vxC16Pick(t, "nostatus", 3, salt, 1005) == 0
+	c.Base.DisTopo = !c.Base.DisStatus && vxC16Pick(t, "notopo", 4, salt, 1006) == 0
 	nr := rapid.IntRange(1, 2).Draw(t, "rounds")
 	prepOps := []string{"add", "add", "remove", "move", "crash", "restart", "invalid"}
 	kinds := []string{"UP", "DOWN", "UP", "NEW_NODE", "REMOVED_NODE", "MOVED_NODE", "NEW_NODE"}
@@ -1907,6 +1909,7 @@ func vxC16Start(c *vxC16Case, k *vstats.Case) (*vxC16World, error) {
 	cfg := vxClusterConfig(w.cl, proto, func(cfg *ClusterConfig) {
 		cfg.PoolConfig.HostSelectionPolicy = vxC16Policy(c.Policy)
 		cfg.Events.DisableNodeStatusEvents = c.DisStatus
+		cfg.Events.DisableTopologyEvents = c.DisTopo
 		cfg.Dialer = w
 		if os.Getenv("VX_C16_DEBUG") != "" {
 			cfg.Logger = log.New(os.Stderr, "drv ", log.Lmicroseconds)
@@ -1980,6 +1983,9 @@ func vxC16RunOnce(c *vxC16Case, k *vstats.Case, label bool) error {
 		k.Class("cfg:policy=" + strconv.Itoa(c.Policy))
 		if c.DisStatus {
 			k.Class("cfg:status-events-disabled")
+		}
+		if c.DisTopo {
+			k.Class("cfg:topology-events-disabled")
 		}
 		switch {
 		case applied >= 8:
@@ -2111,6 +2117,7 @@ func vxC16Draw(t *rapid.T) interface{} {
 		c.RejectDC = rapid.Bool().Draw(t, "rejdc")
 	}
 	c.DisStatus = vxC16Pick(t, "nostatus", 5, salt, 1005) == 0
+	c.DisTopo = vxC16Pick(t, "notopo", 6, salt, 1006) == 0
 	n := rapid.IntRange(5, 16).Draw(t, "nsteps")
 	for i := 0; i < n; i++ {
 		c.Steps = append(c.Steps, vxC16DrawStep(t, salt, i))
@@ -2122,7 +2129,7 @@ func vxC16Draw(t *rapid.T) interface{} {
 func TestVxC16History(t *testing.T) {
 	vx.Check(t, vx.Prop{
 		ID: "C16", Part: "TestVxC16History",
-		Rule: "history of 5..16 pre-drawn steps (add / remove / move / replace a node, a node reported under another node-to-node address with its client address kept (within one step: refresh, status event for the new address, back; or persisting over later steps), invalid and duplicate peers rows, heal, refresh, system.peers failure, batches of 1..4 status/topology events for known and unknown addresses, control-connection loss, node crash/restart, reconnect tick, query) over 1..4 initial nodes x 5 policies x optional host filter x Events.DisableNodeStatusEvents; steps that do not apply are skipped; non-trivial = a removal, address change, replacement or invalidation of a node happened after an addition and a later successful refresh reported it; distinct by the whole case",
+		Rule: "history of 5..16 pre-drawn steps (add / remove / move / replace a node, a node reported under another node-to-node address with its client address kept (within one step: refresh, status event for the new address, back; or persisting over later steps), invalid and duplicate peers rows, heal, refresh, system.peers failure, batches of 1..4 status/topology events for known and unknown addresses, control-connection loss, node crash/restart, reconnect tick, query) over 1..4 initial nodes x 5 policies x optional host filter x Events.DisableNodeStatusEvents / DisableTopologyEvents; steps that do not apply are skipped; non-trivial = a removal, address change, replacement or invalidation of a node happened after an addition and a later successful refresh reported it; distinct by the whole case",
 		Draw: vxC16Draw,
 		New:  func() interface{} { return &vxC16Case{} },
 		Run:  vxC16Budget(vxC16Run),
